@@ -1,8 +1,10 @@
 import Apko.Model.Lock
+import Apko.Model.LockGlue
 import Apko.Driver.Resolver
 /-! line-protocol handlers for corr:lock (C09) -/
 namespace Apko.Driver.Lock
 open Apko Apko.Resolver Apko.Lock Apko.Driver.Resolver
+open Apko.LockGlue (Sections PkgRef LockEntry Installed Opts CacheMode)
 
 def showMap (m : SMap (List Text)) : String :=
   let ks := sortS (keys m)
@@ -83,7 +85,100 @@ def isOkUR : UR → Bool
 
 def sameSet (a b : List Nat) : Bool := a.all (b.contains ·) && b.all (a.contains ·)
 
+
+/-! ### glue steps (`Model/LockGlue.lean`) -/
+
+/-- n × (sig, ctl, dat, sigSum, ctlSum, datSum, q1) -/
+def readSections : Nat → Nat → List String → Option (List (PkgRef × Sections) × List String)
+  | 0, _, rest => some ([], rest)
+  | n + 1, i, sig :: ctl :: dat :: ss :: cs :: ds :: q1 :: rest =>
+    let url : Text := (toString i).toList
+    let s : Sections := { sig := sig.toNat!, ctl := ctl.toNat!, dat := dat.toNat!, sigSum := str ss, ctlSum := str cs,
+                          datSum := str ds, q1 := str q1, name := url, version := [], arch := [] }
+    let p : PkgRef := { name := url, version := [], arch := [], url := url, checksum := str q1 }
+    (readSections n (i + 1) rest).map fun (l, r) => ((p, s) :: l, r)
+  | _, _, _ => none
+
+def showEntry (e : LockEntry) : String :=
+  ",".intercalate ([e.sigRange, e.sigSum, e.ctlRange, e.ctlSum, e.datRange, e.datSum, e.checksum].map enc)
+
+/-- the state a run of the given kind finds, for files `fs` -/
+def stateOf (kind : String) (fs : List (PkgRef × Sections)) : Opts × LockGlue.St :=
+  let disk := fs.map fun (p, s) => (p.url, LockGlue.diskEntryOf s)
+  let memo := fs.map fun (p, s) => (p.url, p.checksum, LockGlue.expandFresh s)
+  let o (c : CacheMode) (ign : Bool) : Opts := ⟨c, ign, false⟩
+  match kind with
+  | "off" => (o .off false, LockGlue.St.empty)
+  | "cold" => (o .on false, LockGlue.St.empty)
+  | "warm" => (o .on false, ⟨disk, memo⟩)
+  | _ => (o .on false, ⟨disk, []⟩)          -- "fresh": another process filled the disk cache
+
+def entryOfText (arch : Text) (t : Text) (intact : Bool) : LockEntry × Option Sections :=
+  let f := splitOnChar ' ' t
+  let name := f.headD []
+  let version := (f.drop 1).headD []
+  let checksum := (f.drop 2).headD []
+  let url := arch ++ ['/'] ++ t
+  ({ name := name, url := url, version := version, arch := arch, sigRange := [], sigSum := [], ctlRange := [], ctlSum := [],
+     datRange := [], datSum := [], checksum := checksum },
+   if intact then some { sig := 0, ctl := 1, dat := 1, sigSum := [], ctlSum := [], datSum := [], q1 := checksum,
+                         name := name, version := version, arch := arch } else none)
+
+/-- narch × (arch, `xENTRY/status,…`) -/
+def readLocked : Nat → List String → Option (List (Text × List (LockEntry × Option Sections)) × List String)
+  | 0, rest => some ([], rest)
+  | n + 1, arch :: l :: rest =>
+    let a := str arch
+    let es := if l.isEmpty then [] else (l.splitOn ",").map fun x =>
+      match x.splitOn "/" with
+      | [e, st] => entryOfText a (str e) (st == "intact")
+      | _ => entryOfText a (str x) false
+    (readLocked n rest).map fun (r, rest') => ((a, es) :: r, rest')
+  | _, _ => none
+
+def showImage (arch : Text) (l : List Text) : Text :=
+  (enc (if l.isEmpty then "?".toList else arch) ++ ":" ++ ",".intercalate (l.map enc)).toList
+
+def showImages (imgs : List (Text × List Text)) : String :=
+  ";".intercalate ((sortS (imgs.map fun (a, l) => showImage a l)).map String.ofList)
+
+def glueHandle (args : List String) : Option String :=
+  match args with
+  | "l.lockfile" :: kind :: ign :: n :: rest =>
+    match readSections n.toNat! 0 rest with
+    | some (fs, [go]) =>
+      let (o, st) := stateOf kind fs
+      let o := { o with ignoreSignatures := ign == "1" }
+      let repo : LockGlue.Repo := fun u => (fs.find? (·.1.url = u)).map (·.2)
+      let impl := match LockGlue.lockFile o st repo [fs.map (·.1)] with
+        | none => "err"
+        | some l => ";".intercalate (l.map showEntry)
+      let spec := ";".intercalate (fs.map fun (p, s) => showEntry (LockGlue.specEntry p s))
+      if go = spec then some (impl ++ "\tpass\t-")
+      else some (impl ++ "\tfail:the recorded ranges/checksums are not those of the files at the recorded URLs\tunlisted")
+    | _ => some "bad-input\tfail:bad-input\tunlisted"
+  | "l.lockbuild" :: narch :: rest =>
+    match readLocked narch.toNat! rest with
+    | some (archs, [pred, go]) =>
+      let lock : List LockEntry := archs.flatMap fun (_, es) => es.map (·.1)
+      let files := archs.flatMap fun (_, es) => es
+      let repo : LockGlue.Repo := fun u => (files.find? (·.1.url = u)).bind (·.2)
+      let txt (n v c : Text) : Text := n ++ [' '] ++ v ++ [' '] ++ c
+      let impl0 := match LockGlue.buildAll ⟨.off, false, false⟩ LockGlue.St.empty repo lock (archs.map (·.1)) with
+        | none => "err"
+        | some imgs => "ok " ++ showImages (imgs.map fun (_, db) =>
+            ((db.head?.map (·.arch)).getD [], db.map fun i => txt i.name i.version i.checksum))
+      let impl := if pred = "free" then go else impl0
+      let listed := "ok " ++ showImages (archs.map fun (a, es) => (a, es.map fun (e, _) => txt e.name e.version e.checksum))
+      if go = "err" || go = listed then some (impl ++ "\tpass\t-")
+      else some (impl ++ "\tfail:build --lockfile succeeded and the images do not hold exactly what the lock lists\tunlisted")
+    | _ => some "bad-input\tfail:bad-input\tunlisted"
+  | _ => none
+
 def handle (args : List String) : Option String :=
+  match glueHandle args with
+  | some r => some r
+  | none =>
   match args with
   | "l.unify" :: originals :: narch :: rest =>
     match readRaw narch.toNat! rest with
